@@ -37,7 +37,8 @@ def owned_scan(prog, cs):
         return acc
     allbad = []
     for props, fields, funcs, src in cs.owned:
-        fset = set(fields); tset = set(f.rsplit('.', 1)[0] for f in fields)
+        gset = set(f[7:] for f in fields if f.startswith('global:'))
+        fset = set(fields); tset = set(f.rsplit('.', 1)[0] for f in fields if not f.startswith('global:'))
         bad = {f: [] for f in fields}; allbad.append(bad)
         for name, fn in prog.funcs.items():
             sn = ir_short(prog, name)
@@ -49,6 +50,18 @@ def owned_scan(prog, cs):
                     tf = short(i['struct']).split('.')[-1] + '.' + i['field']
                     if tf in fset: owned_regs[i['name']] = tf
             for i in ins_all:
+                if gset and i['op'] not in ('DebugRef',) and not (i['op'] == 'UnOp' and i.get('unop') == '*'):
+                    # a package variable declared owned: outside the listed functions it may only be loaded
+                    def gl(x, acc):
+                        if isinstance(x, dict):
+                            if x.get('k') == 'global': acc.append(ir_short(prog, x['name']))
+                            else:
+                                for v in x.values(): gl(v, acc)
+                        elif isinstance(x, list):
+                            for v in x: gl(v, acc)
+                        return acc
+                    for gname in gl(i, []):
+                        if gname in gset: bad['global:' + gname].append('%s: %s of &%s at %s' % (sn, i['op'], gname, i.get('pos')))
                 if i['op'] == 'Store':
                     et = short(i['addr'].get('type', '')).lstrip('*').split('.')[-1]
                     if et in tset and i['addr'].get('k') != 'reg':
